@@ -22,6 +22,8 @@ func init() {
 }
 
 func runC19(w *World, r *Report) {
+	r.Rule("observers", "methods that formatting calls implicitly (String, Error, …) leave the value unchanged", 1)
+	observerRule(w, r, "observers", "ofbase")
 	r.Rule("noconsume", "the read accessors of the encoder and decoder (Bytes, Length, Offset, BaseOffset) hand their state to nothing that could change it: looking at what was written does not drain it", 1)
 	noConsumeRule(w, r, "noconsume", func(fi *FuncInfo) bool {
 		if fi.Pkg.Name != "ofbase" {
